@@ -942,6 +942,20 @@ func topLevelOnceRuleSSA(r *Run, rule string) {
 				bad(origInstr(outs[1]).Pos(), fmt.Sprintf("%d writes for one statement", len(outs)), "each statement's value must be written exactly once, after its error was checked")
 			}
 			continue
+		case retVal != nil && !retWritten && func() bool {
+			// the write is skipped where the value was found to be nil: the sink writes nothing for nil (C01.R2)
+			for _, d := range p.decisions {
+				x, op, isCmp := isNilCompare(p, d.cond)
+				if !isCmp || d.truth != (op == token.EQL) {
+					continue
+				}
+				if cal, call := evalResult(p, x, 0); cal == m.ret && ssa.Value(call) == retVal {
+					return true
+				}
+			}
+			return false
+		}():
+			// nothing to write
 		case retVal != nil && !retWritten:
 			if !reported["ret"] {
 				reported["ret"] = true
